@@ -99,7 +99,7 @@ def h_negative(locus, tid, kind, preset):
         gi = build_locus(locus, params.delta)
         exons = list(gi.all_isoforms_exons[tid])
         big = 400          # beyond delta, max_intron_shift, major_exon_extension
-        s = g.int("edit_size", big, 600)
+        s = g.int("edit_size", big, 900 if kind.startswith("alt_") else 600)
         if kind == "shifted_donor":
             exons[0] = (exons[0][0], exons[0][1] - s + 550 if False else exons[0][1])
             read = [(exons[0][0], exons[0][1])] + [(exons[1][0], exons[1][1])] + exons[2:]
@@ -120,6 +120,23 @@ def h_negative(locus, tid, kind, preset):
             a = exons[0][0] - s
             j_ = g.int("start_jitter", -params.delta, params.delta)
             read = [(a - 150, a), (exons[0][0] + j_, exons[0][1] - 20)]
+        elif kind in ("alt_first_exon", "alt_last_exon"):
+            # T with its first / last exon replaced by a DIFFERENT exon of (almost) the same length, >= 400 bp further out:
+            # the terminal splice site is hundreds of bp away from T's
+            dl = g.int("exon_length_difference", -20, 20)
+            if kind == "alt_first_exon":
+                ln = exons[0][1] - exons[0][0] + dl
+                b_ = exons[0][1] - s
+                read = [(b_ - ln, b_)] + exons[1:]
+            else:
+                ln = exons[-1][1] - exons[-1][0] + dl
+                a_ = exons[-1][0] + s
+                read = exons[:-1] + [(a_, a_ + ln)]
+            g.add(ln >= 30)
+            # ... and from the terminal splice site of every other isoform as well (beyond max_intron_shift of every preset)
+            for ue in gi.all_isoforms_exons.values():
+                if len(ue) > 1:
+                    g.add(abs(read[0][1] - ue[0][1]) >= 150 if kind == "alt_first_exon" else abs(read[-1][0] - ue[-1][0]) >= 150)
         elif kind == "distant_polya":
             # a truncated read of T whose polyA / polyT tail lies inside an exon, >= 400 bp away from the 3' end of every isoform
             strand = gi.isoform_strands[tid]
@@ -150,7 +167,15 @@ def h_negative(locus, tid, kind, preset):
                 g.assume(NOT(intron_chain_compatible(read, gi.all_isoforms_exons[u], params.delta, max(params.delta, params.minor_exon_extension))))
         prof, ra = assign(g, gi, params, read, info)
         t = ra.assignment_type
-        g.check(t not in CONSISTENT, "a read far from every annotated isoform never gets a consistent assignment type",
+        # known finding: a different terminal exon whose LENGTH is within 2*delta of the annotated terminal exon's is taken for a
+        # misaligned terminal exon (minor), however far away it is
+        ex = None
+        if kind in ("alt_first_exon", "alt_last_exon"):
+            k_ = 0 if kind == "alt_first_exon" else -1
+            rl = read[k_][1] - read[k_][0]
+            ex = g.excl({"C01-alternative-terminal-exon-of-similar-length":
+                         OR([abs(rl - (ue[k_][1] - ue[k_][0])) < 2 * params.delta for ue in gi.all_isoforms_exons.values()])})
+        g.check(t not in CONSISTENT, "a read far from every annotated isoform never gets a consistent assignment type", exclude=ex,
                 detail={"locus": locus, "isoform": tid, "edit": kind, "type": getattr(t, "name", str(t)), "reported": reported(ra)})
     return fn
 
@@ -187,7 +212,8 @@ def instances(tier, seed):
                     out.append(Instance("follow_polya[%s,%s,%s]" % (locus, tid, preset), h_positive(locus, tid, 0, len(exons) - 1, preset, True), F,
                                         "full-length read with a polyA/polyT tail at the 3' end", weight=20, budget_s=1200))
             if len(models[0][3]) >= 3:
-                for kind in ("shifted_donor", "novel_exon", "retained_intron", "flanking_exon_right", "flanking_exon_left", "distant_polya"):
+                for kind in ("shifted_donor", "novel_exon", "retained_intron", "flanking_exon_right", "flanking_exon_left", "distant_polya",
+                             "alt_first_exon", "alt_last_exon"):
                     if kind == "distant_polya" and locus not in ("short_last", "short_first"):
                         continue            # needs an exon long enough to hold a tail 400 bp away from every annotated end
                     if kind == "retained_intron":
